@@ -804,7 +804,7 @@ func c05History(c *vc.Ctx, idx int) {
 		}
 	}
 	if terminal == 0 {
-		c.Inconclusive("no withdrawal reached a terminal state (controls do not work)")
+		c.Count("histories_without_a_terminal_withdrawal", 1) // judged over the whole run (checkconf.json: require_observed)
 	}
 	c.Sample(map[string]any{"withdrawals": len(m.wds), "terminal": terminal, "batches": len(m.procs), "with_competing_operations": competed, "last_ops": lastN(lh.opsLog, 4)})
 }
